@@ -3,4 +3,4 @@
 From Coq Require Import Extraction ExtrOcamlBasic.
 From Verif Require Import Engine.
 Extraction Language OCaml.
-Extraction "engine.ml" erun erun_ext.
+Extraction "engine.ml" erun erun_ext erun_obs.
